@@ -17,13 +17,14 @@ class World:
     def __init__(self):
         self.p = lw.Parameter(PV[1])
         self.circ = {}
-        for name, n in (("A", 0), ("B", 1)):
+        # A and B differ only in the herald photon number; C has its (0-photon) herald on a DIFFERENT mode
+        for name, n, hm in (("A", 0, 2), ("B", 1, 2), ("C", 0, 0)):
             c = lw.Circuit(3)
             c.bs(0, 1)
             c.ps(1, self.p)
             c.bs(1, 2, reflectivity=0.4)
             c.loss(0, 0.2)
-            c.herald(n, 2)
+            c.herald(n, hm)
             self.circ[name] = c
         self.psx = lw.PostSelection()
         self.psx.add(0, (0, 1))
@@ -98,6 +99,20 @@ def replay_behaviour(states, kind):
         name, arg = st["last"]
         script.append((name, arg))
         cfg = st["cfg"]
+        try:
+            _apply(kind, world, obj, an, name, arg, cfg, out, i, script)
+        except Exception as e:  # noqa: BLE001
+            from ..common import library_raised
+            if not library_raised(e):
+                raise
+            out.append(("raised/%s" % name, i, "%s(%s) raised %s: %s (history %s)" % (name, arg, type(e).__name__, e, script), {"call": name}))
+        if out:
+            break
+    return out, script
+
+
+def _apply(kind, world, obj, an, name, arg, cfg, out, i, script):
+    if True:
         if name == "set_circuit":
             obj.circuit = world.circ[arg]
         elif name == "edit_circuit":
@@ -128,20 +143,17 @@ def replay_behaviour(states, kind):
                             ("given" if arg else "not given", "carries" if has else "lacks"), {"call": "Analyzer.analyze"}))
         elif name in ("read_dist", "sample", "sample_n_in", "sample_n_out"):
             if kind == "quick" and name == "sample_n_out":
-                continue
+                return
             got = do_read(kind, obj, name)
             ref = do_read(kind, make(kind, world, cfg), name)
             if ref[0] == "raise":
-                continue        # no fresh object answers with these settings: outside the property
+                return          # no fresh object answers with these settings: outside the property
             if not same(name, got, ref):
                 what = "raised %s" % got[1] if got[0] == "raise" else "a different result"
                 hist = [s[0] for s in script]
                 only_mut = "mutate_ps" in hist
                 out.append(("stale/%s/%s" % (kind, name), i, "%s on the long-lived %s gave %s than a freshly created object with the same settings (history %s)"
                             % (name, kind, what, script), {"call": "%s.%s" % (kind, name), "after_in_place_ps_mutation": only_mut}))
-        if out:
-            break
-    return out, script
 
 
 def sim_worker(args):
